@@ -190,7 +190,11 @@ func (p Params) String() string {
 
 // validateBlockReward validates the BlockReward param
 func validateBlockReward(v interface{}) error {
-	_ = v.(sdk.Coin)
+	reward := v.(sdk.Coin)
+	// BeginBlocker builds the minted coin from this amount: a negative one makes it panic
+	if reward.Amount.IsNil() || reward.Amount.IsNegative() {
+		return errors.New("invalid block reward")
+	}
 
 	return nil
 }
@@ -212,8 +216,15 @@ func validatePeriod(v interface{}) error {
 
 // validateAPY validates the BlockReward param
 func validateAPY(v interface{}) error {
-	_, err := sdk.NewDecFromStr(v.(string))
-	return err
+	apy, err := sdk.NewDecFromStr(v.(string))
+	if err != nil {
+		return err
+	}
+	// below the baseline BeginBlocker mints pledged * apy / (halving period / 2): a negative yield is a negative coin
+	if apy.IsNegative() {
+		return errors.New("invalid annual percentage yield")
+	}
+	return nil
 }
 
 // validateFishmenInfo validates the Fishmen list
